@@ -693,13 +693,13 @@ class Emitter:
             # plain call of a CXXMethodDecl = static member function. clang's JSON gives no qualifier for the callee, so the
             # class is only known when the callee is itself a configured unit `...::Class::name`: then it is named like
             # that unit (Class__name); any other static callee keeps its bare name, as before.
-            stat_cls = None
-            if rd.get("kind") == "CXXMethodDecl":
-                for u in self.cfg.get("units", []):
-                    parts = u["name"].split("::")
-                    if len(parts) >= 2 and parts[-1] == name:
-                        stat_cls = self.tm.struct_tag(parts[-2])
-            cname = self.fn_cname(stat_cls, name, fnt)
+            cname = self.fn_cname(None, name, fnt)
+            if cname == self.op_name(name) and rd.get("kind") == "CXXMethodDecl":  # no explicit rename applies
+                cands = [u for u in self.cfg.get("units", [])
+                         if len(u["name"].split("::")) >= 2 and u["name"].split("::")[-1] == name]
+                if len(cands) == 1:  # unambiguous: named like that unit
+                    cname = cands[0].get("cname") or \
+                        self.fn_cname(self.tm.struct_tag(cands[0]["name"].split("::")[-2]), name, fnt)
             params = self.fn_params_from(fnt)
             a = self.call_args(args, params)
             ret, isref = self.ret_ctype_from(fnt)
